@@ -23,6 +23,12 @@
 //	     block 2 (reward = fees + subsidy, AssignCoinbaseTxRewards), and the real checkTxsContext
 //	     (CheckRewardHeight = 0) validates it.  Pre-DPoS rule [0, H2).
 //	     -> "<ntx in block> <n> v1 a1 .. | <ctx> | <Σ tx.Fee()> <GetBlockDPOSReward>"
+//	rvt <k> s1..sk <h> <active> <fees> <reward> <dposReward> <n> v1 a1 .. vn an
+//	     where the consensus mode comes from: a fresh real dpos State processes k blocks
+//	     (e = ordinary block, p = block carrying a RevertToPOW transaction, r<j> = State.RollbackTo
+//	     j blocks back, as a chain reorganisation does), then the coinbase of a DPoS-v2 block is
+//	     checked by the real checkCoinbaseTransactionContext under the mode that State reports
+//	     -> "<pow|dpos> <ok | err kind | panic>"
 //	asg <h> <active> <pow> <fees> <reward>
 //	     the real pow.Service.AssignCoinbaseTxRewards on the two-output coinbase of
 //	     CreateCoinbaseTx, then the real check on the result (dposReward as
@@ -290,6 +296,45 @@ func execCb(t []string) string {
 	return cbClass(chain.VerifCheckCoinbaseTransactionContext(h, coinbase(h, outs), fees, dposReward))
 }
 
+func execRvt(t []string) string {
+	setup()
+	k, _ := strconv.Atoi(t[1])
+	p2 := *params
+	p2.DPoSConfiguration.RecordSponsorStartHeight = math.MaxUint32
+	st := state.NewState(&p2, nil, nil, nil, func() bool { return false }, nil, nil, nil, nil, nil, nil, nil)
+	const H = uint32(1700001)
+	cur := H - 1
+	for i := 0; i < k; i++ {
+		step := t[2+i]
+		switch {
+		case step == "e" || step == "p":
+			cur++
+			txs := []interfaces.Transaction{coinbase(cur, nil)}
+			if step == "p" {
+				txs = append(txs, functions.CreateTransaction(common2.TxVersion09, common2.RevertToPOW, payload.RevertToPOWVersion,
+					&payload.RevertToPOW{Type: payload.NoProducers, WorkingHeight: cur},
+					[]*common2.Attribute{}, []*common2.Input{}, []*common2.Output{}, 0, []*pg.Program{}))
+			}
+			st.ProcessBlock(&types.Block{Header: common2.Header{Height: cur}, Transactions: txs}, nil, 0)
+		case strings.HasPrefix(step, "r"):
+			j, _ := strconv.Atoi(step[1:])
+			if err := st.RollbackTo(cur - uint32(j)); err != nil {
+				return "rollback-error"
+			}
+			cur -= uint32(j)
+		default:
+			panic("harness: rvt step " + step)
+		}
+	}
+	mode, flag := "dpos", "0"
+	if st.GetConsensusAlgorithm() == state.POW {
+		mode, flag = "pow", "1"
+	}
+	tail := t[2+k:]
+	cb := append([]string{"cb", tail[0], tail[1], flag}, tail[2:]...)
+	return mode + " " + execCb(cb)
+}
+
 func execBlk(t []string) string {
 	setup()
 	h, active := atou32(t[1]), atou32(t[2])
@@ -508,6 +553,8 @@ func exec(t []string) string {
 		return execAsg(t)
 	case "blk":
 		return execBlk(t)
+	case "rvt":
+		return execRvt(t)
 	case "gen":
 		return execGen(t)
 	}
@@ -715,6 +762,40 @@ func gen(g *hx.Gen) {
 		}
 		g.Emit("blk %d %d %d %d %d %s", h, active, powMode, crh, int64(reward), b.String())
 	}
+	// the consensus mode as the real dpos State derives it from connected / disconnected blocks
+	nr := g.N(400, 20000)
+	for i := 0; i < nr; i++ {
+		var steps []string
+		var modes []bool // mode after each connected block
+		pow := false
+		for len(steps) < 1+r.Intn(7) {
+			switch {
+			case len(modes) > 0 && r.Chance(30):
+				j := 1 + r.Intn(len(modes))
+				steps = append(steps, fmt.Sprintf("r%d", j))
+				modes = modes[:len(modes)-j]
+				pow = len(modes) > 0 && modes[len(modes)-1]
+			case !pow && r.Chance(35): // RevertToPOW is only valid while in DPoS consensus
+				steps = append(steps, "p")
+				pow = true
+				modes = append(modes, pow)
+			default:
+				steps = append(steps, "e")
+				modes = append(modes, pow)
+			}
+		}
+		active := uint32(1000000 + r.Intn(400000))
+		h := active + 2 + uint32(r.Intn(3000000))
+		fees := genFees(r)
+		reward := params.GetBlockReward(h)
+		cr, miner, dp := shares(common.Fixed64(fees) + reward)
+		a0, a2 := "cr", "stk"
+		if r.Chance(45) { // the coinbase of a POW-mode block
+			a0, a2 = "des", "des"
+		}
+		g.Emit("rvt %d %s %d %d %d %d %d 3 %d %s %d min %d %s", len(steps), strings.Join(steps, " "), h, active, fees, int64(reward),
+			int64(dp), int64(cr), a0, int64(miner), int64(dp), a2)
+	}
 	// real block builder on a real node
 	ng := g.N(120, 1500)
 	for i := 0; i < ng; i++ {
@@ -864,6 +945,41 @@ func oracle(t []string, out string) *hx.Violation {
 			if d30 <= -10 || d30 >= 20 || d35 <= -100 || d35 >= 200 {
 				return &hx.Violation{Kind: "coinbase-share-rounding", Detail: "share differs from the exact ceiling by more than one sela"}
 			}
+		}
+	case "rvt":
+		// the mode must be the one of the blocks that are still connected: POW iff a RevertToPOW
+		// block is among them; and the coinbase rule must be applied under that mode
+		k, _ := strconv.Atoi(t[1])
+		var chain []bool
+		for i := 0; i < k; i++ {
+			st := t[2+i]
+			switch {
+			case st == "e":
+				chain = append(chain, false)
+			case st == "p":
+				chain = append(chain, true)
+			default:
+				j, _ := strconv.Atoi(st[1:])
+				chain = chain[:len(chain)-j]
+			}
+		}
+		want := "dpos"
+		for _, p := range chain {
+			if p {
+				want = "pow"
+			}
+		}
+		f := strings.Fields(out)
+		if len(f) < 2 {
+			return nil
+		}
+		tail := t[2+k:]
+		if f[0] != want {
+			return &hx.Violation{Kind: "consensus-mode-after-reorg",
+				Detail: "the DPoS state reports " + f[0] + " consensus although the connected blocks say " + want + "; coinbase " + strings.Join(tail[5:], " ") + " -> " + strings.Join(f[1:], " ")}
+		}
+		if f[1] == "ok" && ((want == "dpos" && (tail[7] != "cr" || tail[11] != "stk")) || (want == "pow" && (tail[7] != "des" || tail[11] != "des"))) {
+			return &hx.Violation{Kind: "coinbase-address", Detail: "accepted coinbase pays CR/DPoS share to another address than the mode requires"}
 		}
 	case "gen":
 		// the node's own block builder must produce a block the node's validator accepts; the two fee
